@@ -53,6 +53,27 @@ def kv(line):
     return dict(w.split("=", 1) for w in line.split() if "=" in w)
 
 
+def py_guess(ct):
+    """the documented rules of esl_abc_GuessAlphabet on 26 letter counts (integer form of the 2% tests): 0 unknown, 1 RNA, 2 DNA, 3 amino"""
+    n = sum(ct); g = lambda s_: sum(ct[ord(c) - 65] for c in s_); seen = lambda s_: sum(1 for c in s_ if ct[ord(c) - 65] > 0)
+    if n <= 10: return 0
+    if n > 2000 and ct[13] == n: return 2
+    if g("EFIJLOPQZ") > 0: return 3
+    if 50 * (n - g("ACGTN")) <= n and seen("ACGT") == 4: return 2
+    if 50 * (n - g("ACGUN")) <= n and seen("ACGU") == 4: return 1
+    if 50 * (n - g("EFIJLOPQZACGDHKMRSVWYNTX")) <= n and g("DHKMRSVWY") > g("ACG") and seen("EFIJLOPQZACGDHKMRSVWYNT") >= 15: return 3
+    return 0
+
+
+def row_counts(r_):
+    ct = [0] * 26; nl = 0
+    for c in r_:
+        if 65 <= c <= 90 or 97 <= c <= 122:
+            ct[(c & 0xDF) - 65] += 1; nl += 1
+            if nl > 10000: break
+    return ct
+
+
 class Abc:
     """alphabet tables as printed by the implementation (dump line)"""
     def __init__(self, line):
@@ -157,7 +178,7 @@ class C08(Prop):
         "fetch_from_msa_modes_agree", "strdealign_spec", "std_gapchars_ok", "get_from_msa_ss_buffer_safe",
         "sq_grow_covers", "sq_growto_covers", "sq_object_grow_keeps_invariant", "sq_object_digitize_textize", "sq_revcomp_markup",
         "sq_object_copy_spec", "std_case_insensitive", "custom_history_case_insensitive", "custom_history_wfdegen",
-        "sq_checksum_detects_substitution", "sq_checksum_steps_injective",
+        "sq_checksum_detects_substitution", "sq_checksum_steps_injective", "msa_guess_both_forms", "msa_mixed_probe_regenerated",
     )]
     claimed = True
     technique = ("Lean 4 proof: table theorems closed by `decide` over the whole regenerated tables (vs a hand-written IUPAC statement), "
@@ -186,11 +207,11 @@ class C08(Prop):
                   "esl_abc_GuessAlphabet: theorems are about the integer form of the 2% tests (50*d <= n), which the driver runs next to the "
                   "binary64 form on every composition (agreement for |n| < 2^40 is an IEEE fact, not a theorem); "
                   "the integer-score theorems are over Q (the code sums in binary32 and adds 0.5 in binary64: the driver runs exactly that and is compared "
-                  "with the code; the monitor checks the code's answer against the exact round-half-away mean for |scores| <= 10^6); esl_sq_Checksum's value and "
-                  "esl_sq_Grow's allocation sizes are tied by the differential run only; text-mode esl_sq_CountResidues needs sq->abc set by the caller "
+                  "with the code; the monitor checks the code's answer against the exact round-half-away mean for |scores| <= 10^6); esl_sq_Checksum is modelled at uint32 exactly (theorem: every single-residue substitution changes it); text-mode esl_sq_CountResidues needs sq->abc set by the caller "
                   "(NULL for ordinary text sequences: the harness sets it as utest_CountResidues does). "
-                  "Observation (not a violation of C08): esl_msa_GuessAlphabet documents amino+nucleic rows as indeterminate, but an undecided vote always "
-                  "falls through to the pooled pass, which answers amino as soon as one amino-only letter is in the first 10001 letters (proved example in Props).")
+                  "esl_msa_GuessAlphabet: the header documents amino+nucleic rows as indeterminate; the code fell through to the pooled pass and answered amino "
+                  "(not part of C08's statement, but a documented contract: repaired in b4e537e). The model carries both forms; which one the tree has is "
+                  "regenerated on every run (msaMixedProbe) and the monitor states the documented vote independently.")
     diverge_is_violation = True
     trusted_base = ["table dumper translate/tables_alphabet.py (prints the fields of esl_alphabet_Create() of the working tree)",
                     "hand model of esl_alphabet.c conversion loops and constructors tied by exact differential run (h_alphabet.c, ASan+UBSan)",
@@ -913,6 +934,13 @@ class C08(Prop):
                     return Failure("monitor", "esl_msa_GuessAlphabet guesses type %d from %d letters" % (t, len(letters)))
                 if t == 3 and not any(chr(c) in "DEFHIJKLMOPQRSVWYZ" for c in letters):
                     return Failure("monitor", "esl_msa_GuessAlphabet calls an alignment without any amino-specific letter amino")
+                types = [py_guess(row_counts(r_)) for r_ in rows]
+                if 3 in types and (1 in types or 2 in types) and t != 0:
+                    return Failure("monitor", "esl_msa_GuessAlphabet answers type %d for an alignment with a row called amino and a row called nucleic (documented: indeterminate)" % t)
+                if 3 in types and 1 not in types and 2 not in types and t != 3:
+                    return Failure("monitor", "esl_msa_GuessAlphabet answers type %d although some row is called amino and none nucleic" % t)
+                if 3 not in types and (1 in types or 2 in types) and t != (2 if 2 in types else 1):
+                    return Failure("monitor", "esl_msa_GuessAlphabet answers type %d although the rows vote nucleic" % t)
                 if t in (1, 2) and sum(len(r_) for r_ in rows) <= 10000 and all(any(chr(c & 0xDF) in "EFIJLOPQZ" for c in r_ if 65 <= (c & 0xDF) <= 90 and c < 128) for r_ in rows):
                     return Failure("monitor", "esl_msa_GuessAlphabet calls an alignment nucleic although every row has amino-only letters")
                 continue
